@@ -71,12 +71,17 @@ class C17(Plugin):
 
     def impl(self, case):
         from html5lib.filters.whitespace import Filter
-        return enc_tokens(list(Filter([from_json(t) for t in case["toks"]])))
+        f = Filter([from_json(t) for t in case["toks"]])
+        first = enc_tokens(list(f))
+        self._second_same = enc_tokens(list(f)) == first      # iterating the same filter again gives the same stream
+        return first
 
     def oracle(self, case, out):
         from html5lib.constants import rcdataElements
         preserve_names = {"pre", "textarea"} | set(rcdataElements)
         tin = enc_tokens([from_json(t) for t in case["toks"]])
+        if not getattr(self, "_second_same", True):
+            return [("second-iteration-differs", "")]
         if len(tin) != len(out):
             return [("token-count", "")]
         v = []
